@@ -546,6 +546,17 @@ func (u *Unit) specCall(x *ast.CallExpr, env *Env, sc *specCtx) Value {
 		key := strings.Join(strings.Fields(nodeString(token.NewFileSet(), x.Args[0])), " ")
 		mode := strings.Trim(nodeString(token.NewFileSet(), x.Args[1]), "\"")
 		return Value{boolTerm(env.held[key] == mode), boolT}
+	case "store":
+		a := u.sv(x.Args[0], env, sc)
+		i := u.sv(x.Args[1], env, sc)
+		v := u.sv(x.Args[2], env, sc)
+		if !strings.HasPrefix(string(a.Sort), "(Array ") {
+			unsup("store() on non-array")
+		}
+		if v.Sort != arrElemSort(a.Sort) && arrElemSort(a.Sort) == SVal {
+			v = u.specBox(v, env)
+		}
+		return Value{Store(a.Term, i.Term, v.Term), nil}
 	case "fpeq":
 		a := u.sv(x.Args[0], env, sc)
 		b := u.sv(x.Args[1], env, sc)
